@@ -13,7 +13,7 @@ claimed = {
    ref="4/C01"),
  "C17": dict(
    text="Proof for the initialised engine that a request refused by the format check (counted by a ghost counter on ValidInput) or by the length limit returns an error with position, flags, cache levels, pending code, stored input and external/code call counters unchanged, provided the previous output was delivered (idle engine); Flush without a preceding Exec returns ErrFlushNoExec and changes nothing.",
-   note="The first request of an engine (every request in engine-per-request operation) goes through the same proof: init/Exec are verified for fresh and initialised engines; of the setup, ensureState is verified, preparePersist/ensureMemory/ensurePersist (persister, cbor) are assumed to deliver a well-formed state and cache. One premise is stated at the SetInput call sites: the request's input buffer is not the session's flag array. ValidInput's regex matching is assumed to be a pure function of the input (its text is pinned). Trusted: vcgo translation, solvers.",
+   note="The first request of an engine (every request in engine-per-request operation) goes through the same proof: init/Exec are verified for fresh and initialised engines; of the setup, ensureState and ensureMemory are verified, preparePersist/ensurePersist (persister, cbor) are assumed to deliver a well-formed state and cache. One premise is stated at the SetInput call sites: the request's input buffer is not the session's flag array. ValidInput's regex matching is assumed to be a pure function of the input (its text is pinned). Trusted: vcgo translation, solvers.",
    ref="4/C17"),
  "C03": dict(
    text="Proof that INCMP routing follows the statement for every flag/input/selector combination: runInCmp's contract (ignored once INMATCH is set, READIN set on a miss, exactly one applyTarget on a hit, IndexError on '<' at index 0 counts as no match), runDeadCheck's contract (unmatched input becomes MOVE _catch with an InvalidInputError carrying that input), and a call-site assertion inside Run's loop that INMATCH is clear whenever execution resumes from a HALT. Induction over instructions is Run's loop invariant.",
@@ -37,7 +37,7 @@ claimed = {
    ref="4/C08"),
  "C20": dict(
    text="Proof that runDeadCheck sets TERMINATE exactly when code runs out outside input handling, that Run is a no-op while TERMINATE is set (blocked postcondition + decode gate), and of the engine-side transitions: setCode remembers the exit value exactly when output is pending at the end of code, exec stops on TERMINATE, Flush after the final output unwinds the whole stack, releases the cache scopes and clears TERMINATE and DIRTY while keeping the client flags (reset's loop invariant).",
-   note="init/Exec are verified for the first and for later requests of an engine; of the first-time setup, ensureState is verified, the persister part (preparePersist, ensureMemory, ensurePersist: cbor) is assumed to deliver a well-formed state and cache. Trusted: vcgo translation, resource/render stubs, solvers.",
+   note="init/Exec are verified for the first and for later requests of an engine; of the first-time setup, ensureState and ensureMemory are verified, the persister part (preparePersist, ensurePersist: cbor) is assumed to deliver a well-formed state and cache. Trusted: vcgo translation, resource/render stubs, solvers.",
    ref="4/C20"),
  "C09": dict(
    text="Proof over every Cache method (NewCache, Add, Update, Get, Push, Pop, Reset, frameOf, checkCapacity, ReservedSize, Last, Levels) that the representation invariant is preserved for all inputs: scopes are distinct maps, a symbol lives in at most one scope, every live symbol has a limit, CacheUseSize equals the summed length of all stored values (mod 2^32) and that sum never exceeds the capacity; values over their limit are rejected for every length, rejected calls change nothing, Pop/Reset release exactly the bytes of the scopes they drop. Loops (map ranges, scope scan) are cut by inductive invariants.",
